@@ -690,6 +690,11 @@ class BaseProxy(_BaseProxy_):
         else:
             self._dispatch('incref')
 
+        self._register_decref()
+
+    def _register_decref(self):
+        # Arrange for the reference held by this proxy to be released
+        # when the proxy object goes away.
         self._idset.add(self._id)
 
         self._close = util.Finalize(
@@ -703,7 +708,10 @@ class BaseProxy(_BaseProxy_):
                 self._Client,
                 self._server,
             ),
-            # exitpriority=10,
+            exitpriority=10,
+            # Run also when the process exits while this proxy is still alive (e.g. it is
+            # referenced by the process object's arguments or by a module-level variable);
+            # otherwise the reference would never be released.
         )
 
     # Changes to the original version:
@@ -773,9 +781,8 @@ def RebuildProxy(func, token, serializer, kwds):
     """
     Function used for unpickling proxy objects.
     """
-    incref = kwds.pop('incref', True) and not getattr(
-        current_process(), '_inheriting', False
-    )
+    inheriting = getattr(current_process(), '_inheriting', False)
+    incref = kwds.pop('incref', True) and not inheriting
     obj = func(token, serializer, incref=incref, **kwds)
     # `func` is either `AutoProxy` or a subclass of `BaseProxy`.
     # TODO: it appears `incref` is True some times and False some others, affecting by the '_inheriting` condition.
@@ -788,6 +795,12 @@ def RebuildProxy(func, token, serializer, kwds):
             server.decref(None, token.id)
         else:
             obj._dispatch('decref')
+    elif inheriting:
+        # This proxy is being unpickled as part of the arguments of a new (spawned) process.
+        # It has not called `incref`; the reference that `__reduce__` took in the parent is
+        # this proxy's reference. Without a finalizer that reference is never released and
+        # the hosted object's ref count stays one too high forever.
+        obj._register_decref()
 
     return obj
 
